@@ -15,7 +15,8 @@ Inductive lstate :=
 | LReady
 | LBusy (ev : Z)  (* process.event = ev *)
 | LUnknown        (* protocol violated; process.event = None *)
-| LDead.          (* reaped: not RUNNING any more *)
+| LDead           (* reaped: not RUNNING any more *)
+| LBroken.        (* READY, but writing to its stdin raises EPIPE (the child died, not reaped yet): _dispatchEvent skips it *)
 
 Inductive lop :=
 | LEmit                 (* an event the pool subscribes to is raised *)
@@ -24,7 +25,8 @@ Inductive lop :=
 | LOk (i : nat)         (* RESULT 2\nOK *)
 | LFail (i : nat)       (* RESULT 4\nFAIL *)
 | LGarbage (i : nat)    (* a malformed result line *)
-| LReap (i : nat).      (* the listener process is reaped: Subprocess.finish *)
+| LReap (i : nat)       (* the listener process is reaped: Subprocess.finish *)
+| LBreak (i : nat).     (* the READY listener's child dies: from now on a write to its stdin raises EPIPE *)
 
 (* what an observer of the listeners' stdin and stdout sees, newest first *)
 Inductive lentry := Sent (i : nat) (ev : Z) | Acked (i : nat) (ev : Z).
@@ -95,6 +97,11 @@ Definition lstep (s : lpool) (o : lop) : lpool :=
     | LBusy ev => mkL (ev :: l_buf s) (set_nth (l_ls s) i LDead) (l_next s) (l_log s)   (* finish(): event rejected *)
     | LDead => s
     | _ => mkL (l_buf s) (set_nth (l_ls s) i LDead) (l_next s) (l_log s)
+    end
+  | LBreak i =>
+    match nth i (l_ls s) LDead with
+    | LReady => mkL (l_buf s) (set_nth (l_ls s) i LBroken) (l_next s) (l_log s)
+    | _ => s
     end
   end.
 
